@@ -100,8 +100,9 @@ def generate(rng, n, tier, stats):
                 if u < 0.45: nm = [next(fresh) for _ in dims]
                 elif u < 0.7: nm = list(dims); rng.shuffle(nm)                      # a permutation of the current names
                 elif u < 0.85: nm = list(dims[1:]) + [next(fresh)]                   # a shift: every name but the last is a later axis's name
+                elif u < 0.93: nm = [next(fresh)] * len(dims)                         # duplicate names (rejected when there are two or more)
                 else: nm = [next(fresh)] * (len(dims) + 1)
-                stats['set_dims_form']['fresh' if u < 0.45 else 'permute' if u < 0.7 else 'shift' if u < 0.85 else 'wrong-length'] += 1
+                stats['set_dims_form']['fresh' if u < 0.45 else 'permute' if u < 0.7 else 'shift' if u < 0.85 else 'duplicates' if u < 0.93 else 'wrong-length'] += 1
                 op = ['set_dims', nm]
             elif k == 'rename_axes':
                 if not dims: continue
